@@ -217,8 +217,9 @@ def in_range(e, grid):
     return True
 
 
-def audit_name_list(nl, history_children):
+def audit_name_list(nl, history_children, ident=None):
     """offline replay of cse_name_list; returns list of problems"""
+    ident = ident or IDENT
     problems = []
     names = [n for n, _ in nl]
     dup = sorted({n for n in names if names.count(n) > 1})
@@ -227,7 +228,7 @@ def audit_name_list(nl, history_children):
     defined = set()
     for n, code in nl:
         if isinstance(code, str):
-            for used in IDENT.findall(code):
+            for used in ident.findall(code):
                 if used not in defined:
                     problems.append(f"{n} = {code}: uses {used} before its assignment")
         defined.add(n)
@@ -304,8 +305,10 @@ def c_unit(ctx, case):
     units, meta = [], {}
     uid = 0
     for hist in histories:
-        exprs, plan = hist
-        mappers = [CCodeMapper()]
+        exprs, plan = hist[:2]
+        opts = hist[2] if len(hist) > 2 else {}      # constructor options of the first mapper
+        ident = re.compile(r"\b%s\w*\b" % re.escape(opts["cse_prefix"])) if "cse_prefix" in opts else IDENT
+        mappers = [CCodeMapper(**opts)]
         texts = [[]]            # per mapper: (expr index, text)
         known = [[]]            # per mapper: expressions whose wrappers it may already have hoisted
         mapped = [[]]           # per mapper: children handed over by copy_with_mapped_cses
@@ -364,10 +367,10 @@ def c_unit(ctx, case):
                     assigns.append((n, c))
                 else:       # a mapped CSE: defined by the caller
                     assigns.append((n, pre_assign.get(n) or CCodeMapper()(c)))
-            probs = audit_name_list(nl, distinct_children(known[k], mapped[k]))
+            probs = audit_name_list(nl, distinct_children(known[k], mapped[k]), ident)
             names_known = {n for n, _ in nl}
             for _, t in texts[k]:
-                for used in IDENT.findall(t):
+                for used in ident.findall(t):
                     if used not in names_known:
                         probs.append(f"result text uses {used}, which is never assigned")
             ctx.count("cse_assignments", len(nl))
@@ -646,7 +649,27 @@ def directed_histories():
         out += scale.shared_contexts(s_, 3, z)
         out += [p.Sum((CSE(s_, "sh"), p.Product((s_, z)))), p.Sum((p.Product((s_, z)), CSE(s_, "sh"))),
                 p.Sum((p.Power(s_, 3), p.Product((s_, z)))), p.Sum((p.Product((s_, z)), p.Power(s_, 3)))]
+    # depth: a construct applied to its own result, 3 .. 6 times
+    fams = scale.family_towers(x, y)
+    for fam in ("square", "neg", "floordiv", "remainder", "sum-in-product", "product-in-sum", "if-branch",
+                "if-condition", "cse", "cse-prefixed", "min", "bitwise-not"):
+        for depth in (3, 4, 5, 6):
+            for core in (x, p.Sum((x, 1))):
+                out.append(scale.nest(fams[fam], depth, core))
+                out.append(p.Sum((y, p.Product((-1, scale.nest(fams[fam], depth, core))))))
     hists = [([e], [("map", 0, 0)]) for e in out]
+    # constructor options combined with the history steps (a prefix of the caller's choice,
+    # ascending order) -- copies inherit them
+    for opts in ({"cse_prefix": "tq"}, {"cse_prefix": "tq", "reverse": False}, {"reverse": False},
+                 {"cse_prefix": "_c"}, {"cse_prefix": "_cse_"}):
+        k1, k2, k3 = CSE(p.Sum((x, 11)), "u"), CSE(p.Sum((y, 12)), "u"), CSE(p.Product((z, 3)))
+        es = [p.Sum((k1, p.Product((k2, 3)))), p.Product((k2, k1)), p.Sum((k3, k1, k2)),
+              p.Sum((CSE(p.Sum((x, 11)), "u"), 1)), p.Product((k3, k3))]
+        for plan in ([("map", 0, 0), ("copy", 0), ("map", 1, 1), ("map", 2, 1), ("map", 3, 0), ("map", 4, 1)],
+                     [("map", 0, 0), ("map", 4, 0), ("copy", 0), ("copy", 1), ("map", 3, 2), ("map", 1, 2), ("map", 2, 1)],
+                     [("map", 2, 0), ("copy_mapped", 0, 5), ("map", 0, 1), ("map", 1, 1), ("map", 3, 1)]):
+            es2 = [*es, p.Sum((x, y, 40))] if any(st[0] == "copy_mapped" for st in plan) else es
+            hists.append((es2, plan, opts))
     # ... and at two places of two expressions that go through the one mapper
     for s_ in (p.Sum((x, y)), p.Remainder(p.Sum((x, 7)), 5), p.Product((-1, x)), p.Sum((x, p.Product((-1, y))))):
         es = [p.If(p.Comparison(z, ">", 0), s_, 0), p.Product((s_, z)), p.Sum((s_, 1)), p.Power(s_, 2)]
@@ -722,7 +745,7 @@ def workload(ctx):
                     ctx.count("directed_histories", len(dh))
                     hists += dh
                 for h in hists:
-                    ctx.case((kind, normal.typed_key(tuple(h[0])), tuple(h[1])),
+                    ctx.case((kind, normal.typed_key(tuple(h[0])), tuple(h[1]), str(h[2:])),
                              any(normal.count_ops(e) >= 2 for e in h[0]), n=0)
                     for e in h[0]:
                         for x in G.walk(e):
@@ -747,6 +770,6 @@ def workload(ctx):
     ctx.floor("compiler:clang-san", 2000)
     ctx.floor("cse_assignments", 100)
     ctx.floor("histories", 300)
-    ctx.floor("directed_histories", 200)
+    ctx.floor("directed_histories", 350)
     ctx.floor("directed_float_histories", 60)
     ctx.floor("failed_renders_in_history", 30)
